@@ -565,9 +565,18 @@ def opgrid_program(rng, nargs=2, nops=6):
             items += operand() + operand() + operand() + [rng.choice(TERN)]
         else:
             op = rng.choice(BIN)
+            force_pw = rng.random() < 0.15
+            if force_pw:
+                op = rng.choice(["DIV", "SDIV", "SDIV", "MOD", "SMOD", "SMOD", "MUL"])
             a, b = operand(), operand()
             if op in ("BYTE", "SHL", "SHR", "SAR", "SIGNEXTEND") and rng.random() < 0.8:
                 b = [("push", rng.choice([0, 1, 2, 7, 8, 15, 16, 30, 31, 32, 33, 127, 128, 255, 256, 257]))]
+            if op in ("DIV", "SDIV", "MOD", "SMOD", "MUL") and (force_pw or rng.random() < 0.35):
+                # a symbolic operand against a power of two (incl. 1 and 2^255 = the most negative word): the shapes a
+                # strength reduction (shift / mask instead of the division) would pick
+                sym = [("push", 4 + 32 * rng.randrange(nargs)), "CALLDATALOAD"]
+                pw = [("push", 1 << rng.choice([0, 1, 2, 3, 7, 8, 64, 128, 254, 255]))]
+                a, b = (pw, sym) if rng.random() < 0.7 else (sym, pw)
             if op == "EXP":
                 b = [("push", rng.choice([0, 1, 2, 3, 10, 255, 256]))]
                 if rng.random() < 0.5:
